@@ -276,10 +276,10 @@ pub fn c20(args: &Args) -> Acc {
             } else {
                 gen::gen_rect(&mut rng, lw, lh, Mode::Hostile, maxvis)
             };
-            if lsize(&cfg).0 * lsize(&cfg).1 > (1 << 24) && r.area() > (1 << 24) {
-                return; // keep the reference affordable on the 65535^2 models
-            }
-            let op = match rng.below(3) {
+            // fills of up to 2^32 - 2^17 pixels on the 65535^2 models are one run event at the
+            // Interface level; only a colour *stream* of that length is unaffordable
+            let huge = lsize(&cfg).0 * lsize(&cfg).1 > (1 << 24) && r.area() > (1 << 24);
+            let op = match if huge { 2 * rng.below(2) } else { rng.below(3) } {
                 0 => Op::FillSolid { rect: r, c: tags.one() },
                 1 => {
                     let vis = visible_area(&r, lw, lh);
@@ -305,6 +305,9 @@ pub fn c20(args: &Args) -> Acc {
             let rep = s.step(&op);
             if rep.result != CallResult::Ok {
                 return; // judged by C02
+            }
+            if huge {
+                a.count("fills_above_2^24_pixels", 1);
             }
             let visible = match &op {
                 Op::Clear { .. } => true,
@@ -437,11 +440,38 @@ pub fn c20(args: &Args) -> Acc {
                     colors: Stream::Seq { start: tags.run(rect.area()), step: 1, len: Some(rect.area()) },
                 },
             };
-            let prog = vec![op.clone()];
+            
             let mut s = match Session::open(&cfg) {
                 Opened::Ready(s) => s,
                 Opened::Failed { .. } => return,
             };
+            // what happened before the measured call must not matter: a smaller or larger fill of
+            // the same or another colour, a streamed burst, a call that failed on the bus
+            let mut history = Vec::new();
+            for _ in 0..rng.below(3) {
+                let hw = rng.range(1, lw.min(40)) as u32;
+                let hh = rng.range(1, lh.min(6)) as u32;
+                let hrect = Rect { x: rng.range(0, lw - hw as i64) as i32, y: rng.range(0, lh - hh as i64) as i32, w: hw, h: hh };
+                let same_colour = match &op {
+                    Op::FillSolid { c, .. } if rng.bool() => Some(*c),
+                    _ => None,
+                };
+                let h = match rng.below(3) {
+                    0 => Op::FillContiguous { rect: hrect, colors: Stream::Seq { start: tags.run(hrect.area()), step: 1, len: None } },
+                    _ => Op::FillSolid { rect: hrect, c: same_colour.unwrap_or_else(|| tags.one()) },
+                };
+                let fail = if rng.chance(1, 3) { Some(rng.below(24)) } else { None };
+                let r = s.step_with(&h, fail);
+                if r.result == CallResult::Ok {
+                    a.count("spi_history_calls_ok", 1);
+                } else if fail.is_some() {
+                    a.count("spi_history_calls_failed_on_the_bus", 1);
+                } else {
+                    return;
+                }
+                history.push(h);
+            }
+            let prog: Vec<Op> = history.iter().cloned().chain(std::iter::once(op.clone())).collect();
             s.tl.b().raw_on = true;
             s.tl.b().raw.clear();
             let rep = s.step(&op);
@@ -521,11 +551,34 @@ pub fn c04(args: &Args) -> Acc {
             cfg.ox = 0;
             cfg.oy = 0;
         }
+        // more than 2^31 *visible* points (65535 x 65535 panels): the stream ends a few thousand
+        // colours after the first visible point, the rest must stay untouched
+        let vast = !cfg.tr.is_l2() && !crate::small() && !large && rng.chance(1, 40);
+        if vast {
+            // same colour format as the drawn configuration (it was chosen to fit the transport)
+            cfg.model = if cfg.model.bits() == 18 { ModelId::Ext65535c666 } else { *rng.pick(&[ModelId::Ext65535, ModelId::Ext32768]) };
+            let (fw, fh) = cfg.model.fb();
+            cfg.w = fw;
+            cfg.h = fh;
+            cfg.ox = 0;
+            cfg.oy = 0;
+        }
         let (lw, lh) = lsize(&cfg);
         let maxvis = if cfg.tr.is_l2() { 1024 } else if large { 1 << 19 } else { 8192 };
         let mut rect;
         let mut lvi;
         loop {
+            if vast {
+                let (dx, dy) = (rng.range(-3, 3), rng.range(-3, 3));
+                let w = (lw - dx.max(0) - rng.range(0, 20) + rng.range(0, 4) * rng.below(2) as i64).max(1);
+                let h = (((1i64 << 31) + rng.range(-70_000, 1 << 30)) / w.min(lw)).min(65_600).max(1);
+                rect = Rect { x: dx as i32, y: dy as i32, w: w as u32, h: h as u32 };
+                if rect.area() >= (1 << 32) {
+                    continue;
+                }
+                lvi = gen::last_visible_index(&rect, lw, lh);
+                break;
+            }
             rect = gen::gen_rect(&mut rng, lw, lh, Mode::Hostile, maxvis);
             if large && rng.bool() {
                 // overlapping one or two edges and covering most of the display
@@ -568,6 +621,10 @@ pub fn c04(args: &Args) -> Acc {
         // after the last visible point
         if area > (1 << 24) && len.map(|l| l > lvi.unwrap_or(0) + 8).unwrap_or(true) {
             len = Some(lvi.map(|i| i + 1 + rng.below(8)).unwrap_or(rng.below(8)));
+        }
+        if vast {
+            len = Some(skip + rng.below(5000));
+            a.count("rectangles_with_2^31_visible_points_or_more", (visible_area(&rect, lw, lh) >= (1 << 31)) as u64);
         }
         let mut tags = TagGen::new(&mut rng);
         let start = tags.one();
